@@ -40,6 +40,15 @@ def check_inverse(ctx, a, m, enum=False):
     if not (0 <= i < m) or (a * i) % m != 1 % m:
         cls = "neg" if a < 0 else ("big" if a >= m else "reduced")
         ctx.fail("inverse/wrong/%s" % cls, case, "got %r" % (i,))
+    else:
+        try:
+            back = NT.inverse_mod(i, m)
+        except Exception as e:
+            ctx.fail("inverse/exception-on-the-way-back/%s" % type(e).__name__, case, repr(e))
+            return
+        if back != a % m or not (0 <= back < max(m, 1)):
+            ctx.fail("inverse/inverse-of-inverse-wrong/%s" % ("neg" if a < 0 else ("big" if a >= m else "reduced")), case,
+                     "inverse_mod(%d, m) = %d, then inverse_mod(%d, m) = %r, expected %d" % (a, i, i, back, a % m))
     if a not in (0, 1):
         ctx.event("inverse:" + ("neg" if a < 0 else ("big" if a >= m else "reduced")))
         if enum:
